@@ -344,6 +344,34 @@ def union_order_pairs(col):
     return fails
 
 
+def shared_generic_sequence(col):
+    """Every `shared-generic` probe (divmod / max / sorted / abs / round over all ordered pairs of six argument types)
+    checked one after the other with ONE Checker, forwards and backwards; each render must equal the render with a
+    Checker of its own.  Deterministic counterpart of the random history pools for state kept per protocol match."""
+    fails = []
+    types = ["int", "bool", "float", "str", "bytes", "list[int]"]
+    head = "from typing import *\nfrom typing_extensions import *\n"
+    progs = [head + (f"def g(a: {a}, b: {b}):\n    reveal_type(divmod(a, b))\n    reveal_type(max(a, b))\n"
+                     f"    reveal_type(sorted([a, b]))\n    reveal_type(abs(a))\n    reveal_type(round(a, 1))\n") for a in types for b in types]
+    own = [[tuple(x) for x in render(sut.check_source(p, checker=sut.new_checker()).diags)] for p in progs]
+    for order_name, order in (("forwards", list(range(len(progs)))), ("backwards", list(reversed(range(len(progs)))))):
+        shared = sut.new_checker()
+        for i in order:
+            got = [tuple(x) for x in render(sut.check_source(progs[i], checker=shared).diags)]
+            col.case(nontrivial_id=("shared-generic-sequence", order_name, i), label=["route:shared-generic-sequence"])
+            if got != own[i]:
+                strip = lambda r: [tuple(re.sub(r" \(Protocol with members [^)]*\)", "", str(y)) for y in x) for x in r]
+                if strip(got) == strip(own[i]):
+                    col.excluded_known += 1  # the listed protocol-members-suffix finding
+                    continue
+                diff = next(((x, y) for x, y in zip(got, own[i]) if x != y), (got[-1:] or [("",)], own[i][-1:] or [("",)]))
+                fails.append(("history|shared-generic-sequence", f"probe {i} ({progs[i].splitlines()[2]}) checked {order_name} in the sequence of all probes "
+                              f"renders {str(diff[0][-1])[:140]!r}; with a Checker of its own {str(diff[1][-1])[:140]!r}",
+                              {"shared_generic_sequence": order_name, "index": i}))
+                return fails
+    return fails
+
+
 def shards(tier, seed):
     k = 4 if tier == "quick" else 12
     out = [{"mode": "seeds", "index": i, "batches": 2 if tier == "quick" else 30, "k": k} for i in range(8)]
@@ -358,7 +386,7 @@ def run_shard(spec):
     col = runner.Collector(spec)
     seed = runner.mix_seed(spec["seed"], ID, spec["name"])
     if spec["mode"] == "union-order-pairs":
-        for key, what, case in union_order_pairs(col):
+        for key, what, case in union_order_pairs(col) + shared_generic_sequence(col):
             col.fail(key, what, case)
         return col.result()
     if spec["mode"] == "seeds":
@@ -415,6 +443,9 @@ def run_shard(spec):
 
 
 def replay_all(case):
+    if "shared_generic_sequence" in case:
+        col = runner.Collector({})
+        return [{"key": k, "what": w, "case": c} for k, w, c in shared_generic_sequence(col)]
     if "union_order_pair" in case:
         p0, p1 = case["union_order_pair"]
         shared = sut.new_checker()
